@@ -702,3 +702,4 @@ def check(repo, rep, tier):
   c20b.rule_psd_test(repo, rep)
   c20b.rule_pinv_spectrum(repo, rep)
   c20b.rule_metric_init_table(repo, rep)
+  c20b.rule_components_init_table(repo, rep)
